@@ -48,6 +48,8 @@ pub struct World {
     pub cur: Vec<Option<u32>>,
     pub cfg: Cfg,
     pub with_lib: bool,
+    /// bare configuration changes executed as reloads (they changed how text is parsed)
+    pub promoted_configs: u64,
 }
 
 pub fn root_for(seed: u64) -> PathBuf {
@@ -64,7 +66,7 @@ impl World {
         if with_lib {
             analysis.add_library_workspace(&WorkspaceFolder::new(root.join("lib"), true));
         }
-        World { analysis, root, files: files.to_vec(), cur: vec![None; files.len()], cfg: cfg.clone(), with_lib }
+        World { analysis, root, files: files.to_vec(), cur: vec![None; files.len()], cfg: cfg.clone(), with_lib, promoted_configs: 0 }
     }
 
     pub fn uri(&self, f: usize) -> lsp_types::Uri {
@@ -130,8 +132,20 @@ impl World {
             }
             Op::Reindex => self.analysis.reindex(),
             Op::Config { cfg } => {
+                // `update_config` alone never re-parses (on any tree; the server always re-sends the
+                // files after a configuration change), so a bare configuration change that alters
+                // how text is parsed - including one that silently *reverts* such a setting - is
+                // executed as the reload the server would do. Comparing stored trees parsed under
+                // the old parser configuration with a fresh analysis under the new one would
+                // demand more than any caller of the API relies on.
+                let reparse = parse_class(cfg) != parse_class(&self.cfg);
                 self.cfg = cfg.clone();
                 self.analysis.update_config(Arc::new(emmyrc_for(cfg, &self.root, self.with_lib)));
+                if reparse {
+                    self.promoted_configs += 1;
+                    let items: Vec<(usize, u32)> = self.cur.iter().enumerate().filter_map(|(f, v)| v.map(|v| (f, v))).collect();
+                    self.load(&items, true);
+                }
             }
             Op::ConfigReload { cfg } => {
                 self.cfg = cfg.clone();
@@ -197,6 +211,15 @@ impl World {
 
     pub fn observe(&self) -> observe::Obs {
         observe::observe(&self.analysis, &self.root, &ObserveOpts { requires: self.requires(), ..Default::default() })
+    }
+}
+
+/// The part of a configuration variant that changes how text is parsed (language level,
+/// require-like / special functions, non-standard symbols); 0 = parser defaults.
+fn parse_class(cfg: &Cfg) -> u32 {
+    match cfg.variant % 7 {
+        v @ (1 | 2 | 5 | 6) => v,
+        _ => 0,
     }
 }
 
